@@ -15,13 +15,26 @@ RULE = ("repodata documents with 0-8 artifacts per section (packages / packages.
 THEOREMS = ["signRepo_ok", "sigSection_keys", "sigSection_entry", "signRepo_other_fields", "client_verifies", "signRepo_idempotent", "cross_artifact_or_forgery"]
 
 
+def order_to_depth(v, depth: int):
+    """the same JSON value with object members sorted at the outer `depth` levels and reverse-sorted below"""
+    if isinstance(v, dict):
+        return {k: order_to_depth(v[k], depth - 1) for k in sorted(v, reverse=depth <= 0)}
+    if isinstance(v, list):
+        return [order_to_depth(x, depth) for x in v]
+    return v
+
+
 def rand_doc(rng):
     def arts(n):
         d = {}
         for _ in range(n):
             name = rng.choice(["pkg-%d-1.0-0.tar.bz2" % rng.randrange(50), "a.conda", gen.rand_str(rng, 6) or "x", "é-%d.conda" % rng.randrange(9)])
             d[name] = rng.choice([{"name": "p", "version": "1.%d" % rng.randrange(9), "depends": ["a >=1"], "size": rng.randrange(10**6)}, gen.rand_json(rng, 3, [12]), {}, {"x": 1.5, "é": None},
-                                  {"type": "root", "name": "p"}, {"type": "key_mgr", "version": 1, "delegations": {}}])   # look like, but are not, delegating metadata
+                                  {"type": "root", "name": "p"}, {"type": "key_mgr", "version": 1, "delegations": {}},   # look like, but are not, delegating metadata
+                                  {"build": "0", "depends": [{"name": "b", "extra": {"z": 1, "a": 2}}], "meta": {"z": {"y": 0, "b": 1}, "m": 1, "a": [1, {"q": 1, "b": 2}]}, "name": "p"}])
+            if isinstance(d[name], dict) and rng.random() < 0.4:
+                # members in sorted order down to some depth and in reverse order below it (files written by tools that sort only the outer levels)
+                d[name] = order_to_depth(d[name] if rng.random() < 0.5 else gen.rand_json(rng, 4, [20]), rng.choice([0, 1, 1, 2]))
         return d
     doc = {"info": {"subdir": "noarch"}, "packages": arts(rng.choice([0, 1, 2, 3, 8]))}
     if rng.random() < 0.7:
